@@ -44,6 +44,12 @@ enum Lane {
     File,
     Meta,
     Pool,
+    /// one socket: a read that waits for the peer's bytes and a write large enough to fill the socket
+    /// buffer pend together; the peer drains (writable) and writes (readable) at generated instants
+    Duplex,
+    /// a read polled once where it was created, then handed to a spawned task that awaits it; the data
+    /// comes after the hand-over (the completion must wake the task that now owns the future)
+    HandOver,
 }
 
 #[derive(Clone, Debug)]
@@ -56,7 +62,7 @@ struct Plan {
 }
 
 fn gen_plan() -> Plan {
-    let lane = [Lane::PipeReads, Lane::UnixReads, Lane::UnixWrites, Lane::File, Lane::Meta, Lane::Pool][sim::choose("lane", 6)];
+    let lane = [Lane::PipeReads, Lane::UnixReads, Lane::UnixWrites, Lane::File, Lane::Meta, Lane::Pool, Lane::Duplex, Lane::HandOver][sim::choose("lane", 8)];
     let n = 1 + sim::range("lane.ops", 0, 4) as usize;
     // distinct sizes, so that a swapped buffer is also visible in its capacity
     let ops = (0..n).map(|k| 1 + k * 3 + 16 * sim::range("op.size", 0, 6) as usize).collect();
@@ -142,7 +148,7 @@ fn ops_mix() -> RunResult {
     let seen = seen.borrow();
     // exactly once: one outcome per operation issued
     for (li, p) in plans.iter().enumerate() {
-        if matches!(p.lane, Lane::Meta | Lane::Pool) {
+        if matches!(p.lane, Lane::Meta | Lane::Pool | Lane::Duplex | Lane::HandOver) {
             continue;
         }
         for k in 0..p.ops.len() {
@@ -374,6 +380,105 @@ async fn lane(li: usize, p: Plan, seed: u64, concurrent: bool, errs: &Errs, seen
                     Err(e) => errs.push("io-error", format!("lane {li} metadata {k}: {e}")),
                 }
             }
+        }
+        Lane::Duplex => {
+            let Ok((a, b)) = std::os::unix::net::UnixStream::pair() else { return };
+            let Ok(s) = compio_net::UnixStream::from_std(a) else { return };
+            let _ = b.set_nonblocking(true);
+            let peer = Rc::new(RefCell::new(b));
+            // more than the socket buffers hold, so that the write has to wait for the peer
+            let big = 300_000 + p.ops[0] * 1000;
+            let out = sim::payload(seed ^ (li as u64) << 8 ^ 0xD0, big);
+            let inc = sim::payload(seed ^ (li as u64) << 8 ^ 0xD1, 1 + p.ops.len() * 7);
+            let drained: Rc<RefCell<Vec<u8>>> = Rc::default();
+            let (t_drain, t_write) = (p.feed[0].0, p.feed.last().unwrap().0 + sim::range("duplex.gap", 0, 1) * 30);
+            // the peer drains what has been written every 20 µs from t_drain on, until everything arrived
+            {
+                fn drain(peer: Rc<RefCell<std::os::unix::net::UnixStream>>, got: Rc<RefCell<Vec<u8>>>, want: usize, rounds: u32) {
+                    let mut tmp = vec![0u8; 65536];
+                    loop {
+                        match peer.borrow_mut().read(&mut tmp) {
+                            Ok(n) if n > 0 => got.borrow_mut().extend_from_slice(&tmp[..n]),
+                            _ => break,
+                        }
+                    }
+                    if got.borrow().len() < want && rounds < 400 {
+                        simkernel::at(Duration::from_micros(20), "the duplex peer drains its socket".to_string(), move || drain(peer, got, want, rounds + 1));
+                    }
+                }
+                let (peer, got) = (peer.clone(), drained.clone());
+                simkernel::at(at(t_drain), format!("the peer of lane {li} starts draining"), move || drain(peer, got, big, 0));
+            }
+            {
+                let (peer, inc) = (peer.clone(), inc.clone());
+                simkernel::at(at(t_write), format!("the peer of lane {li} writes {} bytes", inc.len()), move || {
+                    let _ = peer.borrow_mut().write_all(&inc);
+                });
+            }
+            let rd = async {
+                let mut r = &s;
+                let BufResult(res, buf) = r.read(Vec::with_capacity(inc.len() + 8)).await;
+                match res {
+                    Ok(n) if n > 0 && buf[..n] == inc[..n] => {}
+                    other => errs.push("content", format!("lane {li}: the read that pended next to a blocked write returned {other:?}, the peer wrote {} bytes", inc.len())),
+                }
+            };
+            let wr = async {
+                let mut w = &s;
+                let mut off = 0;
+                while off < out.len() {
+                    let BufResult(res, _) = w.write(out[off..].to_vec()).await;
+                    match res {
+                        Ok(n) if n > 0 => off += n,
+                        other => {
+                            errs.push("io-error", format!("lane {li}: write next to a pending read returned {other:?}"));
+                            break;
+                        }
+                    }
+                }
+            };
+            futures_util::join!(rd, wr);
+            // give the peer's periodic drain time to collect the tail
+            for _ in 0..400 {
+                if drained.borrow().len() >= big {
+                    break;
+                }
+                compio_runtime::time::sleep(Duration::from_micros(20)).await;
+            }
+            if drained.borrow()[..] != out[..] {
+                errs.push("stream-content", format!("lane {li}: the peer received {} of {big} bytes written next to a pending read: {}", drained.borrow().len(), first_diff(&drained.borrow(), &out)));
+            }
+            keep.borrow_mut().push(Box::new(peer));
+        }
+        Lane::HandOver => {
+            let Ok((a, b)) = std::os::unix::net::UnixStream::pair() else { return };
+            let Ok(s) = compio_net::UnixStream::from_std(a) else { return };
+            let s = Rc::new(s);
+            let data = sim::payload(seed ^ (li as u64) << 8 ^ 0xE0, 1 + p.ops[0] % 50);
+            let peer = Rc::new(RefCell::new(b));
+            {
+                let (peer, d) = (peer.clone(), data.clone());
+                simkernel::at(at(5 + p.feed[0].0), format!("the peer of lane {li} writes {} bytes", d.len()), move || {
+                    let _ = peer.borrow_mut().write_all(&d);
+                });
+            }
+            let s2 = s.clone();
+            let cap = data.len() + 4;
+            let mut fut = Box::pin(async move {
+                let mut r = &*s2;
+                r.read(Vec::with_capacity(cap)).await
+            });
+            // polled here once: the operation is submitted and remembers this task's waker
+            if let std::task::Poll::Ready(BufResult(res, _)) = futures_util::poll!(fut.as_mut()) {
+                errs.push("content", format!("lane {li}: a read completed ({res:?}) before the peer wrote anything"));
+                return;
+            }
+            let h = compio_runtime::spawn(fut);
+            match h.await {
+                Ok(BufResult(Ok(n), buf)) if buf[..n] == data[..n] && n > 0 => {}
+                other => errs.push("content", format!("lane {li}: the handed-over read returned {:?}", other.map(|r| r.0))),
+            }
+            keep.borrow_mut().push(Box::new(peer));
         }
         Lane::Pool => {
             let hs: Vec<_> = p.ops.iter().copied().enumerate().map(|(k, len)| compio_runtime::spawn_blocking(move || (k, len * 3 + 1))).collect();
